@@ -19,6 +19,8 @@ import (
 	"sync"
 )
 
+var errRepositoryClosed = errors.New("crl repository was closed")
+
 type Repository struct {
 	Factory           crlstore.Factory
 	crlRepositoryLock *sync.RWMutex
@@ -424,7 +426,9 @@ func (R *Repository) updateCrlEntry(entry *Entry, newChains *core.CertificateCha
 	verifhook.Hit("repo.refresh.before-swap")
 	err = R.updateEntry(entry, err, store)
 	if err != nil {
-		R.deleteEntrySync(identifier)
+		if !errors.Is(err, errRepositoryClosed) {
+			R.deleteEntrySync(identifier)
+		}
 		return err
 	}
 	verifhook.Hit("repo.refresh.after-swap")
@@ -464,6 +468,10 @@ func (R *Repository) getCrlUpdateInformation(entry *Entry, err error) (*core.CRL
 func (R *Repository) updateEntry(entry *Entry, err error, store crlstore.CRLStore) error {
 	entry.entryLock.Lock()
 	defer entry.entryLock.Unlock()
+	if entry.Closed {
+		//the repository was closed while the new crl was downloaded, the closed store must not be touched anymore
+		return errRepositoryClosed
+	}
 	err = entry.CRLStore.Update(store)
 	if err != nil {
 		entry.CRLStore.Close()
